@@ -314,3 +314,41 @@ def r8_registration(ctx):
 
 
 RULES = [r8_registration, r1_dce_guard, r2_keep, r3_live_update, r4_lowering, r5_clone, r6_edges, r7_entry_exit]
+
+
+def r9_merge_appends(ctx):
+    ctx.rule("C17.r9", "simplify merges a block into its predecessor by APPENDING its statements (basic_block::copy_back): the "
+             "position does not depend on the block's mutable insertion-point state, and the live sets are merged", floor=1)
+    CFG = "include/crab/cfg/cfg.hpp"
+    BB = "crab::cfg::basic_block"
+    allf = ctx.db.fns(CFG, cpk=BB)
+    # methods whose insertion position depends on m_insert_point_at_front
+    pos_dep = {f["name"] for f in allf if any(is_field(x, "m_insert_point_at_front") for x in walk(f["body"])) and not f.get("ctor")}
+    fs = [f for f in allf if f["name"] == "copy_back"]        # move_back has no caller in the tree
+    if not ctx.need(fs, "basic_block::copy_back"):
+        return
+    for fn in fs:
+        body = fn["body"]
+        calls = [x for x in walk(body) if x.get("k") == "call" and callee(x) and callee(x).get("cpk") == BB and callee(x)["name"] in pos_dep and
+                 ("o" not in x or is_this(x.get("o")))]
+        if calls:
+            ctx.bad("basic_block::%s adds the statements through `%s`, whose position depends on the pending front-insertion flag "
+                    "(m_insert_point_at_front): with the flag set the first merged statement is placed BEFORE the statements of the "
+                    "receiving block" % (fn["name"], callee(calls[0])["name"]), fn, calls[0], sig="merge-position-dependent:%s" % fn["name"])
+            continue
+        app = [x for x in walk(body) if is_call(x, name=("insert", "push_back")) and is_field(obj(x), "m_stmts")]
+        at_end = [x for x in app if callee(x)["name"] == "push_back" or (x.get("a") and any(is_call(y, name="end") for y in walk(x["a"][0])))]
+        live = [x for x in walk(body) if (x.get("k") == "call" and x.get("op") in ("=", "|=") and is_field(x.get("o"), "m_live")) or
+                is_call(x, name=("update_uses_and_defs",))]
+        if app and len(at_end) == len(app) and live:
+            ctx.ok("%s appends at m_stmts.end() and merges m_live" % fn["name"], fn, app[0])
+        elif not app:
+            ctx.undecided("%s: the append to m_stmts was not found" % fn["name"], fn, body)
+        elif len(at_end) != len(app):
+            ctx.bad("basic_block::%s does not insert at m_stmts.end()" % fn["name"], fn, app[0], sig="merge-not-at-end:%s" % fn["name"])
+        else:
+            ctx.bad("basic_block::%s does not merge the live (use/def) sets of the appended statements" % fn["name"], fn, body,
+                    sig="merge-live-dropped:%s" % fn["name"])
+
+
+RULES += [r9_merge_appends]
